@@ -38,6 +38,9 @@ impl ToPrimitive for u128 {
 pub assume_specification<T, U, F: FnOnce(T) -> U> [Option::<T>::map_or] (o: Option<T>, default: U, f: F) -> (r: U)
     requires o is Some ==> f.requires((o->Some_0,))
     ensures o is None ==> r == default, o is Some ==> f.ensures((o->Some_0,), r);
+pub assume_specification<T, F: FnOnce(T) -> bool> [Option::<T>::is_some_and] (o: Option<T>, f: F) -> (r: bool)
+    requires o is Some ==> f.requires((o->Some_0,))
+    ensures o is None ==> !r, o is Some ==> f.ensures((o->Some_0,), r);
 /// D2/D3 helper: the i-th element of a consumed Vec / array / slice (what `into_iter()` would move out)
 #[verifier::external_body]
 pub fn verif_elem<T>(v: &Vec<T>, i: usize) -> (r: T) requires i < v@.len() ensures r == v@[i as int] { unimplemented!() }
@@ -67,8 +70,26 @@ impl<V> BTreeMap<u64, V> {
     pub fn is_empty(&self) -> (r: bool) ensures r == (btree_view(*self).dom() =~= vstd::set::Set::<u64>::empty()) { unimplemented!() }
 }
 /// weak spec (enough to type-check mutants; nothing about WHICH elements stay beyond being old elements in order is claimed)
+/// Vec::retain keeps, in order, exactly the elements the predicate accepts (std documentation)
 pub assume_specification<T, A: core::alloc::Allocator, F: FnMut(&T) -> bool> [Vec::<T, A>::retain] (v: &mut Vec<T, A>, f: F)
-    ensures final(v)@.len() <= old(v)@.len();
+    requires forall|x: T| old(v)@.contains(x) ==> f.requires((&x,))
+    ensures final(v)@ == old(v)@.filter(|x: T| f.ensures((&x,), true));
+/// proved: members of a filtered sequence satisfy the predicate and come from the original
+pub broadcast proof fn lemma_filter_members<T>(l: Seq<T>, p: spec_fn(T) -> bool)
+    ensures #![trigger l.filter(p)] l.filter(p).len() <= l.len(),
+        forall|j: int| 0 <= j < l.filter(p).len() ==> p(#[trigger] l.filter(p)[j]) && l.contains(l.filter(p)[j])
+    decreases l.len()
+{
+    reveal(Seq::filter);
+    if l.len() > 0 {
+        let lp = l.drop_last();
+        lemma_filter_members(lp, p);
+        let fp = lp.filter(p);
+        assert forall|j: int| 0 <= j < l.filter(p).len() implies p(#[trigger] l.filter(p)[j]) && l.contains(l.filter(p)[j]) by {
+            if j < fp.len() { let k = choose|k: int| 0 <= k < lp.len() && lp[k] == fp[j]; assert(l[k] == lp[k]); } else { assert(l[l.len() - 1] == l.last()); }
+        }
+    }
+}
 pub assume_specification<T, E> [Result::<T, E>::unwrap_or] (r: Result<T, E>, default: T) -> (v: T)
     ensures r is Ok ==> v == r->Ok_0, r is Err ==> v == default;
 pub assume_specification<T: Default, E> [Result::<T, E>::unwrap_or_default] (r: Result<T, E>) -> (v: T)
@@ -82,7 +103,7 @@ pub broadcast axiom fn ax_lex_trans(a: Seq<u8>, b: Seq<u8>, c: Seq<u8>) requires
 /// array extensionality (proved, not assumed): arrays with equal views are equal
 pub broadcast proof fn lemma_array_ext<T, const N: usize>(a: [T; N], b: [T; N])
     requires a@ =~= b@ ensures #![trigger a@, b@] a == b { assert(a =~= b); }
-pub broadcast group group_lex { ax_lex_total, ax_lex_antisym, ax_lex_trans, lemma_array_ext }
+pub broadcast group group_lex { ax_lex_total, ax_lex_antisym, ax_lex_trans, lemma_array_ext, lemma_filter_members }
 //@broadcast group_lex
 pub open spec fn sort2(a: Seq<u8>, b: Seq<u8>) -> Seq<Seq<u8>> { if lex_le(a, b) { seq![a, b] } else { seq![b, a] } }
 pub open spec fn sort3(a: Seq<u8>, b: Seq<u8>, c: Seq<u8>) -> Seq<Seq<u8>> {
